@@ -230,6 +230,8 @@ type run struct {
 	capLo    int32
 	capHi    int32
 	spin     *rng // free running: random work inside bodies
+	barrier  int32 // free running, fan-in family: dependents of the root meet before they request their dependencies
+	arrived  int32
 	spinMu   sync.Mutex
 	vmu      sync.Mutex
 	viols    []violation
@@ -359,6 +361,16 @@ func (t *tgt) Evaluate(e runner.Engine) error {
 		r.s.mu.Unlock()
 	}
 	r.work()
+	if b := atomic.LoadInt32(&r.barrier); b > 0 && l >= 1 && l <= int(b) {
+		// client code may do anything while it holds its slot: here, wait (briefly) for the sibling targets so
+		// that all of them request the same dependencies at the same moment
+		atomic.AddInt32(&r.arrived, 1)
+		for spin := 0; atomic.LoadInt32(&r.arrived) < b && spin < 20000; spin++ {
+			if spin%64 == 63 {
+				runtime.Gosched()
+			}
+		}
+	}
 	labels := make([]string, len(r.g.deps[l]))
 	for i, d := range r.g.deps[l] {
 		labels[i] = strconv.Itoa(d)
@@ -894,6 +906,15 @@ func childStress(seed uint64, n int, maxNodes int, fixed string) int {
 		}
 		r := newRun(g, nil, limit)
 		r.spin = &rng{rg.next()}
+		if fixed == "" && i%3 == 2 {
+			// contention family: many dependents request the same few targets at the same moment, no work in
+			// the bodies (the races on the registry and on a target's status need real simultaneity)
+			g = genFanIn(rg)
+			r = newRun(g, nil, limit)
+			if k := len(g.deps[0]); k <= limit {
+				r.barrier = int32(k)
+			}
+		}
 		var live int32
 		runner.VerifInstall(func(ev runner.VerifEvent) {
 			switch ev.Name {
@@ -1014,6 +1035,29 @@ func genGraph(rg *rng, n, capacity int) *graph {
 		}
 	}
 	g.known[0] = rg.below(40) != 0
+	return g
+}
+
+// fan-in: the root requests k dependents which all request the same j targets (and sometimes each other)
+func genFanIn(rg *rng) *graph {
+	k, j := 2+rg.below(15), 1+rg.below(4)
+	n := 1 + k + j
+	g := &graph{n: n, root: 0, deps: make([][]int, n), known: make([]bool, n), body: make([]bool, n)}
+	for i := range g.known {
+		g.known[i], g.body[i] = true, true
+	}
+	for m := 1; m <= k; m++ {
+		g.deps[0] = append(g.deps[0], m)
+		for x := 0; x < j; x++ {
+			g.deps[m] = append(g.deps[m], 1+k+(x+m)%j)
+		}
+		if rg.below(8) == 0 {
+			g.deps[m] = append(g.deps[m], 1+rg.below(k))
+		}
+	}
+	if rg.below(4) == 0 {
+		g.body[1+k+rg.below(j)] = false
+	}
 	return g
 }
 
